@@ -23,7 +23,7 @@ LEVEL_TEXT = (
     "alphabet (slice/project/unslice, reconfigure, forest, anneal, temper, "
     "slice-and-reconfigure, sort/reset indices, copy, contract and cost "
     "queries; in-place and copying variants) are explored to depth 2 "
-    "(quick) / 3 (thorough, depth 4 on a core alphabet); states "
+    "(quick) / 3 (thorough, depth 4 on a 14-op mini alphabet); states "
     "de-duplicated by a hash of the complete mutable state; in every "
     "state the tree and all its still-alive ancestors must contract (3 "
     "option points) to exactly the reference value / projected section."
@@ -83,8 +83,8 @@ def specs(tier):
                 out.append(((name, shape, mode), 2, "full"))
     for s in quick:
         out.append((s, 3, "full"))
-    for s in deep[:4]:
-        out.append((s, 4, "core"))
+    for s in deep[:6]:
+        out.append((s, 4, "mini"))
     return out
 
 
@@ -164,8 +164,8 @@ def finish(tier, seed, merged):
     return {"depth": {"quick": "2 (full alphabet, 19 start states) + 3 "
                       "(core alphabet, 8 start states)",
                       "thorough": "2 (full alphabet, all start states) + 3 "
-                      "(full alphabet, 16 start states) + 4 (core "
-                      "alphabet, 4 start states)"}[tier],
+                      "(full alphabet, 16 start states) + 4 (mini "
+                      "alphabet of 14 ops, 6 start states)"}[tier],
             "capped": False}
 
 
